@@ -139,9 +139,11 @@ def cache_target_clause(line):
         item.cached_page_counter_values = vals(cached)
         collector.target_lookup_items[S.dec(name)] = item
     calls = []
+    mixins = []
     items = []
     for k, (content, missing, missing_target, idx, pending, cached) in enumerate(lookups):
-        item = CounterLookupItem((lambda mixin=None, _k=k: calls.append(_k)), [S.dec(n) for n in missing],
+        item = CounterLookupItem((lambda mixin=None, _k=k: (calls.append(_k), mixins.append((_k, dict(mixin or {}))))),
+                                 [S.dec(n) for n in missing],
                                  {S.dec(a): [S.dec(n) for n in names] for a, names in missing_target})
         item.page_maker_index = None if idx == 'none' else int(idx)
         item.pending = pending == 'true'
@@ -154,7 +156,15 @@ def cache_target_clause(line):
     target = collector.target_lookup_items.get(anchor)
     changed = (target is not None and target.state == 'up-to-date' and not collector.collecting
                and target.cached_page_counter_values != values)
+    own = [dict(item.cached_page_counter_values) for item in items]
     collector.cache_target_page_counters(anchor, values, index, page_maker)
+    for k, mixin in mixins:
+        # the box is re-parsed with the page counters cached for the box itself (those of its own page: what its
+        # counter(page) / counter(pages) must print), never with those of the target
+        if mixin != own[k]:
+            return (f'box #{k} is re-parsed with the page counters {mixin} (those of the target {anchor!r}: {values}); '
+                    f'the page counters cached for the box itself are {own[k]}: its own counter(page) would print the '
+                    f"target's page")
     if not changed:
         return None
     for k, ((_, token), item) in enumerate(collector.counter_lookup_items.items()):
@@ -172,12 +182,48 @@ def cache_target_clause(line):
     return None
 
 
-# ---------------------------------------------------------------- @counter-style rules
+# ---------------------------------------------------------------- @counter-style descriptors and rules
+
+def descriptor_clause(name, text):
+    """One descriptor validator against the grammar of css-counter-styles-3 (harness/c15_spec.py)."""
+    from weasyprint.css.utils import InvalidValues
+    from weasyprint.css.validation.descriptors import DESCRIPTORS as REAL
+
+    from harness import c15_desc as DV
+    from harness import c15_spec as SP
+    tokens = DV.tokens_of(text)
+    if DV.has_relative_url(tokens):
+        return None
+    function = REAL['counter-style'][name]
+    try:
+        value = function(tokens, DV.BASE) if function.wants_base_url else function(tokens)
+    except InvalidValues:
+        value = None
+    except Exception:  # noqa: BLE001 - crashes of validators are reported by C07 / C02
+        return None
+    return SP.descriptor_clause(name, text, value)
+
 
 def rule_clause(css):
     """What a registered rule must satisfy for render_value to work with it (css-counter-styles-3 §3)."""
+    import tinycss2
+
+    from harness import c15_spec as SP
     cs = S.parse_styles(css, 'empty')
     desc = cs.get('zz')
+    # every declaration of the rule against the specification's grammar (a dropped or altered descriptor)
+    rules = tinycss2.parse_stylesheet(css, skip_comments=True, skip_whitespace=True)
+    if len(rules) == 1 and rules[0].type == 'at-rule' and rules[0].content is not None:
+        last = {}
+        for decl in tinycss2.parse_blocks_contents(rules[0].content, skip_comments=True, skip_whitespace=True):
+            if decl.type == 'declaration' and not decl.important:
+                last[decl.lower_name] = tinycss2.serialize(decl.value)
+        for dname, text in last.items():
+            if dname in ('system', 'negative', 'prefix', 'suffix', 'range', 'pad', 'fallback', 'symbols',
+                         'additive-symbols') and text.strip():
+                what = descriptor_clause(dname, text)
+                if what:
+                    return f'{css}: {what}'
     if desc is None:
         return None
     system = desc['system'] or (None, 'symbolic', None)
